@@ -1524,6 +1524,16 @@ fn status_cases(a: &Args, rng: &mut Rng) -> Vec<Case> {
             }
             flags.extend(perm);
         }
+        // every ordered pair of triples as a direct transition (in particular every single-flag flip in both
+        // directions from every setting of the other two), independent of the PRNG
+        for a in &all {
+            for b in &all {
+                if a != b {
+                    flags.push(*a);
+                    flags.push(*b);
+                }
+            }
+        }
         // the same triple twice in a row, and back to all-false
         flags.push((true, false, true));
         flags.push((true, false, true));
